@@ -42,13 +42,22 @@ def execute(fn, s, action, script=()):
     return sdesc(st), rng
 
 
-def outcomes(fn, s, action, max_runs=5000):
-    """[(choices, result)] for every resolution of the random picks (complete unless capped)"""
+def outcomes(fn, s, action, max_runs=5000, via_copy=False):
+    """[(choices, result)] for every resolution of the random picks (complete unless capped).
+    via_copy=True runs the library's non-in-place utility transition_with_copy on the built state (and also demands
+    that the input state is left unchanged) instead of the in-place call."""
+    from gym_gridverse.envs.transition_functions import transition_with_copy
+
     out = []
 
     def run(rng):
         st = mkstate(s)
         try:
+            if via_copy:
+                st2 = transition_with_copy(fn, st, ACT[action], rng=rng)
+                if sdesc(st) != s:
+                    return ('EXC', 'InputModified', 'transition_with_copy modified its input state')
+                return sdesc(st2)
             fn(st, ACT[action], rng=rng)
         except Exception as e:  # noqa: BLE001
             return ('EXC', type(e).__name__, str(e)[:200])
@@ -81,6 +90,7 @@ SIGMAS = {
     'kin5': [U.WALL, U.door(2, U.C1), U.door(0, U.C1), U.box(U.key(U.C1)), U.telepod(U.C1)],
     'obj5': [U.WALL, U.OBST, U.key(U.C1), U.box(U.key(U.C1)), U.telepod(U.C1)],
     'door5': [U.WALL, U.door(2, U.C1), U.door(1, U.C2), U.key(U.C1), U.box(U.box(U.key(U.C1)))],
+    'tele2': [U.telepod(U.C1), U.telepod(U.C2)],
     'rew5': [U.WALL, U.exit_(0), U.OBST, U.key(U.C1), U.door(1, U.C1)],
 }
 HELDS = {'full': U.HELD_FULL, 'small': U.HELD_SMALL, 'two': [U.NONE, U.key(U.C1)], 'none': [U.NONE]}
@@ -100,16 +110,50 @@ def sweep(plan, worker_fn, nshards=64):
 
     def run(job):
         entry, i, parts = job
-        it = (
-            g
-            for j, g in enumerate(U.grids(entry['shape'], SIGMAS[entry['sigma']], entry['k']))
-            if j % parts == i and (not entry.get('only_k') or nonfloor(g) == entry['only_k'])
-        )
-        return worker_fn(entry, it)
+        stats, fails, samples = worker_fn(entry, shard_iter(entry, i, parts))
+        for f in fails:
+            f['job'] = job_spec(entry, i, parts)
+        return stats, fails, samples
 
-    # largest jobs first for balance
+    # largest jobs first for balance; every job runs in a freshly forked process (see pool.pmap)
     jobs.sort(key=lambda j: -U.count_grids(j[0]['shape'], len(SIGMAS[j[0]['sigma']]), j[0]['k']) / j[2])
-    return pmap(run, jobs)
+    return pmap(run, jobs, fresh=True)
+
+
+def shard_iter(entry, i, parts):
+    return (
+        g
+        for j, g in enumerate(U.grids(tuple(entry['shape']), SIGMAS[entry['sigma']], entry['k']))
+        if j % parts == i and (not entry.get('only_k') or nonfloor(g) == entry['only_k'])
+    )
+
+
+def job_spec(entry, i, parts):
+    e = {k: v for k, v in entry.items()}
+    e['chains'] = [list(c) for c in entry['chains']]
+    return {'entry': e, 'i': i, 'parts': parts}
+
+
+def rerun_job(spec, worker_fn):
+    """re-execute one exploration job (same cases, same order) in this process; returns its list of failures"""
+    entry = dict(spec['entry'])
+    entry['shape'] = tuple(entry['shape'])
+    entry['chains'] = [tuple(c) for c in entry['chains']]
+    return worker_fn(entry, shard_iter(entry, spec['i'], spec['parts']))[1]
+
+
+def same_case(f, g):
+    from .desc import tup
+
+    keys = [k for k in ('kind', 'names', 's', 'a', 'area', 'name', 'pattern', 'origin', 'args', 'seq') if k in f]
+    return all(tup(f.get(k)) == tup(g.get(k)) for k in keys)
+
+
+def replay_job(case, worker_fn):
+    for g in rerun_job(case['job'], worker_fn):
+        if same_case(case['inner'], g):
+            return g.get('message', 'fails again')
+    return None
 
 
 def standard_plan(tier, chains_lo, chains_hi=None, held_lo='small', held_hi='two', actions=None, sigma_hi='reduced',
@@ -147,6 +191,10 @@ def describe_plan(plan):
     ]
 
 
+def nonfloor(rows):
+    return sum(1 for r in rows for o in r if o[0] != 'Floor')
+
+
 def simplicity(case):
     s = case.get('s')
     if not s:
@@ -155,15 +203,20 @@ def simplicity(case):
     return (nonfloor(rows), len(rows) * len(rows[0]), len(case.get('names', ())))
 
 
-def report_fails(rep, fails, replay, limit_per_sig=2):
-    """sort failing cases simplest-first, re-execute each, report (at most limit_per_sig replays per signature)"""
+def report_fails(rep, fails, replay, limit_per_sig=2, job_runner=None):
+    """sort failing cases simplest-first, re-execute each, report (at most limit_per_sig replays per signature).
+    A case that fails in its exploration job but not in isolation is re-run together with the job's preceding cases
+    (job_runner(spec) -> failures): if it fails again there, the behaviour depends on earlier calls in the process -
+    reported as a violation whose replay is the whole job."""
     from .desc import show
 
     fails = sorted(fails, key=simplicity)
     per_sig = {}
+    job_cache = {}
     for f in fails:
         f = dict(f)
         msg = f.pop('message')
+        job = f.pop('job', None)
         key = repr(sorted(f.get('sig', {}).items()))
         per_sig[key] = per_sig.get(key, 0) + 1
         if per_sig[key] > limit_per_sig:
@@ -172,15 +225,21 @@ def report_fails(rep, fails, replay, limit_per_sig=2):
             if e is not None:
                 rep.known_hits[e['id']] = rep.known_hits.get(e['id'], 0) + 1
             continue
+        extra = f" | state: {show(f['s'])}" if f.get('s') else ''
         again = replay(f)
-        if not again:
-            raise SystemExit(f'INTERNAL: violation did not reproduce on re-execution: {msg}')
-        extra = f" | state: {show(f['s'])}" if 's' in f else ''
-        rep.violation(f, msg + extra)
-
-
-def nonfloor(rows):
-    return sum(1 for r in rows for o in r if o[0] != 'Floor')
+        if again:
+            rep.violation(f, msg + extra)
+            continue
+        if job is not None and job_runner is not None:
+            jk = repr(job)
+            if jk not in job_cache:
+                job_cache[jk] = job_runner(job)
+            if any(same_case(f, g) for g in job_cache[jk]):
+                rep.violation({'kind': 'job', 'job': job, 'inner': f, 'sig': dict(f.get('sig', {}), history_dependent=True)},
+                              msg + extra + ' [fails only after the preceding cases of its exploration job, not in isolation: '
+                              'the answer depends on earlier calls in the same process]')
+                continue
+        raise SystemExit(f'INTERNAL: violation did not reproduce on re-execution: {msg}')
 
 
 def make_worker(judge, state_law=None, uses_held=None):
@@ -234,7 +293,7 @@ def run_universe(rep, plan, worker, replay):
         for smp in samples:
             rep.sample(smp, limit=5)
         allfails.extend(fails)
-    report_fails(rep, allfails, replay)
+    report_fails(rep, allfails, replay, job_runner=lambda spec: rerun_job(spec, worker))
     rep.part('universe', **tot)
     return tot
 
